@@ -230,9 +230,14 @@ CLAIMS.update({
     text="Theorems (Props/C19): every mutating call of a link commit is aimed inside the cache (a target outside is never a "
          "target of any call, under any faults); the link text is the absolute path of the target as seen from the calling "
          "process; the commit issues no call that could copy data into the cache; reads through a link are verified like "
-         "any read (C01) whatever the target holds now; reading follows the link; a wrong declared size is rejected. "
+         "any read (C01) whatever the target holds now; reading follows the link; a wrong declared size is rejected. TOTAL "
+         "CORRECTNESS of the commit (Lemmas/LinkRefine, healthy run, by address and keyed): a free address gets the link; "
+         "regular content at the address is kept, never replaced by a link; an EARLIER LINK at the address - stale, dangling "
+         "or good - is replaced by a link to the target just read (temp link + rename, nothing left in tmp, nothing else "
+         "changed), after which read_hash of the returned address and read of the key answer exactly the target's bytes (F18). "
          "Correspondence: absolute/relative targets, partial reads before commit, wrong declarations, pre-existing "
-         "content, target modified/removed afterwards.",
+         "content, an address already linked from another file that was since removed / rewritten / kept, target "
+         "modified/removed afterwards.",
     note=TB + "symlink resolution is modelled for links at the final path component; the process working directory is the "
          "scratch root in both harness and model.",
     technique="Lean 4 proof (AllCalls analysis + run semantics) + differential correspondence"),
